@@ -294,6 +294,7 @@ def run(ctx):
         warnings.simplefilter("ignore")
         nn_, ne = graph_replay(ctx, 2, 2 if not thorough else 3, 400 if not thorough else 6000, rng)
         nt = table(ctx, thorough)
+    ctx.replayed = ne
     ctx.notes.update(jaccache_states=nn_, product_edges_replayed=ne, table_cases=nt)
     ctx.assumptions += [
         "three distinct-valued tensors per identity for the point, the explicit and the object-held parameter: a product taken at the wrong tensors differs numerically",
